@@ -468,6 +468,23 @@ def s11_memoryview_ctx():
         INSTALLED.append('S11 memoryview stand-in usable as a context manager')
 
 
+# ----------------------------------------------------------------------------------------- S12
+def s12_no_inner_enforcement():
+    """CrossHair enforces the docstring contracts of *callees* too: a harness function called from a partition/twin wrapper (or
+    from another harness function) whose post-condition fails would raise PostconditionFailed and the path would be IGNORED
+    (reported as "unable to meet precondition") instead of being a counterexample.  Only the analysed function's own contract
+    is wanted: switch callee enforcement off."""
+    import crosshair.enforce as E
+    if getattr(E.EnforcedConditions.trace_call, '_verif', False):
+        return
+
+    def trace_call(self, frame, fn, binding_target):
+        return None
+    trace_call._verif = True
+    E.EnforcedConditions.trace_call = trace_call
+    INSTALLED.append('S12 contracts of callees not enforced (only the analysed condition)')
+
+
 # ----------------------------------------------------------------------------------------- S10
 def s10_no_shortcircuit():
     import crosshair.core as core
@@ -489,6 +506,7 @@ def install(symmpi=False, hexmodel=True, lazyhex=False):
     s8_bytes_mul()
     s10_no_shortcircuit()
     s11_memoryview_ctx()
+    s12_no_inner_enforcement()
 
 
 def selftest():
